@@ -16,8 +16,29 @@ Case kinds
   refit    a fitted rrBLUP object is queried, then `fit_numpy` is called THROUGH THAT OBJECT with new data
            (other size, other markers); the second model must be the fit of the new data alone, the first
            must be untouched and share no array with the second, also after assigning to the setters
+  big      sizes past internal constants: more than 1024 markers (not a multiple of 1024) or more than 1024 taxa,
+           integer (int8) and float dosage arrays, phased / unphased / raw, statistics on those values
+
+Round 4 additions inside the existing kinds (all optional keys, old replay files still load):
+  lin      opts.cls (the additive model is a DenseAdditiveLinearGenomicModel or an rrBLUPModel0 built directly),
+           opts.layout (raw arrays / coefficient matrices Fortran-ordered, strided views, negative strides,
+           read-only, int8, float64), opts.pt (TrueBreedingValue.estimate with a phenotype object: ndarray,
+           DataFrame, BreedingValueMatrix in another taxon order / with other labels), opts.bv (score() with a
+           BreedingValueMatrix whose location / scale are NOT the from_numpy ones: raw values with location 0 and
+           scale 1, reference-scaled, assigned after construction, scalar arguments), opts.direct (the *_numpy
+           entry points and the base-class code paths called directly; dominance model with u_d = None);
+           magnitudes: one trait with effects of order 2^-17 / 2^-20 (genic variance <= 1e-8 but positive) next to
+           ordinary traits, a fixed locus with effect 2^24 (large common offset of all GEBVs), responses
+           2^24 + small; `exact` views (q <= 2 fixed effects, dyadic data): float result must equal the rational
+  alleles  effects of order 2^-40 (non-zero: not neutral), 130-300 taxa (counts > 127 / > 255), dtype arguments,
+           the inheriting classes (rrBLUPModel0, dominance model)
+  fit      responses with a large common offset (2^20 + k/64), 33-70 records through an int8 genotype matrix,
+           integer arrays, BreedingValueMatrix phenotypes with explicit location / scale
+  requery  in-place edits of the coefficient arrays (no setter call), in-place edits of the genotype objects,
+           (deep)copies that are then mutated, returned arrays that are then mutated
 """
 import contextlib
+import copy
 import json
 from fractions import Fraction
 
@@ -124,31 +145,46 @@ def _gs_sweeps(A, b, atol, maxiter=1000):
 class C04(Prop):
     PID = "C04"
     MODULE = "PybropsModel.Props.C04"
-    N_QUICK = 320
-    N_THOROUGH = 4000
+    N_QUICK = 260
+    N_THOROUGH = 2400
     CORRESPONDENCE = "functional (predictions, statistics, allele functions, Gauss-Seidel sweeps, fit wrapper) + relational (fitted model vs its penalised criterion with the ridge chosen by the ML step)"
     RULE = ("lin: ploidy 1-4, 1-9 taxa x 1-7 markers x 1-3 traits x 1-3 fixed effects, phased 0/1 genotypes with "
             "forced fixed loci and heterozygotes, integer/half-integer effects with exact zeros and both signs, "
-            "unsorted unique taxa names and group labels, a random taxon permutation and a 2-3 part marker split; "
-            "alleles: effects in {-,0,+} per (marker, trait), loci fixed at 0 / fixed at ploidy / polymorphic, "
-            "population sizes incl. 49/98/103/107; gs: symmetric dyadic A with positive diagonal, 0-5 sweeps, "
-            "atol in {1e-8, 0, 1/4}; ml0/fit: integer genotypes with monomorphic and duplicated columns, "
-            "n <= p and n > p, noiseless / noisy / constant responses; requery: 1-4 assignments through the "
-            "public setters u_a / u_d / beta / u_misc / trait on one model object, every entry point re-queried "
-            "after each.  Non-trivial = lin case with >= 2 taxa "
+            "unsorted unique taxa names and group labels (also groups without names), a random taxon permutation and a "
+            "2-3 part marker split; 22 %: one trait in units of 2^-17 / 2^-20 / 2^-30 (genic variance <= 1e-8, > 0); 14 %: a "
+            "fixed locus with effect +-2^24 / 3*2^24 and responses sharing the offset (+ intercept 25000); 15 %: effects that "
+            "sum to exactly 0 over markers; options: class (additive model / rrBLUPModel0 built directly), memory layout "
+            "(Fortran, strided, negative strides, read-only, int8, float64), TrueBreedingValue with phenotype objects "
+            "(ndarray, DataFrame, BreedingValueMatrix in another taxon order / other labels), score() through a "
+            "BreedingValueMatrix with explicit location/scale (constructor arrays, scalars, defaults = raw values, "
+            "re-assigned), the *_numpy and base-class entry points, models returned by to/from_pandas_dict, copy, "
+            "deepcopy (judged with their own coefficients), dominance model with u_d = None; "
+            "big: 1030-2050 markers x 2-3 taxa or 1030-1100 taxa x 1-2 markers, int8 and float dosage arrays; "
+            "alleles: effects in {-,0,+} per (marker, trait) incl. +-2^-40 and -0.0, loci fixed at 0 / fixed at ploidy / "
+            "polymorphic, population sizes incl. 49/98/103/107 and 130/200/300, dtype arguments, inheriting classes; "
+            "gs: symmetric dyadic A with positive diagonal, 0-5 sweeps, atol in {1e-8, 0, 1/4}; ml0/fit: integer genotypes "
+            "with monomorphic and duplicated columns, n <= p and n > p, noiseless / noisy / constant responses, responses "
+            "2^20 + k/64, 33-70 records through an int8 (phased or unphased) matrix, BreedingValueMatrix phenotypes with "
+            "explicit location/scale, gsatol in {default, 0, 1/4, 1/1024}; requery: 1-4 steps on one model object: "
+            "assignments through the public setters u_a / u_d / beta / u_misc / trait, in-place edits of the coefficient "
+            "arrays, in-place edits of the genotype objects, copies that are mutated, returned arrays that are mutated; "
+            "every entry point re-queried after each.  Non-trivial = lin/big case with >= 2 taxa "
             "carrying different dosage rows and a non-zero effect; alleles case with a polymorphic marker and a "
             "non-zero effect; gs case with >= 2 unknowns and >= 1 sweep; ml0/fit case with >= 2 polymorphic markers; refit case whose "
             "second data set differs and has a polymorphic marker; requery case "
-            "with >= 2 distinct dosage rows and an assignment that changes a coefficient matrix")
+            "with >= 2 distinct dosage rows and a step other than a trait renaming")
     TRUSTED = [
         "scipy Nelder-Mead ML step and numpy.linalg.eigh of rrBLUP_ML0: entered as an oracle (the ridge varE/varU "
-        "the implementation chose is recorded and handed to the Spec / model); only ridge > 0 is used",
+        "the implementation chose is recorded and handed to the Spec / model); only ridge > 0 is used "
+        "(ml_ridge_positive: exp/exp > 0)",
         "DenseBreedingValueMatrix.from_numpy / unscale (values are observed through unscale(); their round trip is C15)",
         "numpy matmul / sum / var / where as modelled in Model/GenomicModel.lean",
+        "pandas round trip of to_pandas_dict / from_pandas_dict only through the coefficients the loaded model reports",
     ]
     ASSUMPTIONS = [
         "effects, intercepts, covariates and responses are integers or dyadic rationals: float results are compared "
-        "with the exact rational value at rel 1e-9",
+        "with the exact rational value at rel 1e-9 (abs 1e-12); plain numpy outputs (gebv_numpy, gegv_numpy, predict_numpy) "
+        "at rel 2^-45, abs 2^-70 (every intermediate is representable: a few ulps)",
         "a raw numpy dosage array handed to the dominance model is diploid {0,1,2} (documented in predict(); the "
         "ndarray branch has no ploidy argument and uses D = (gtobj == 1))",
         "score: responses are not constant per trait (SST != 0)",
@@ -178,6 +214,9 @@ class C04(Prop):
                         row[j] = 1
         return g
 
+    TINY = (Fraction(1, 2 ** 17), Fraction(1, 2 ** 20), Fraction(1, 2 ** 30))
+    BIGEFF = 2 ** 24
+
     def _lin_case(self, rng):
         ploidy = rng.choice([1, 2, 2, 2, 2, 3, 4])
         n = rng.choice([1, 2, 3, 4, 5, 6, 9])
@@ -197,21 +236,127 @@ class C04(Prop):
         for k in range(t):      # SST != 0 whenever there are >= 2 taxa
             if n >= 2 and len({row[k] for row in Y}) == 1:
                 Y[0][k] = Y[0][k] + 1
+        beta = self._eff(rng, q, t)
+        ua = self._eff(rng, p, t)
+        ud = self._eff(rng, p, t) if rng.random() < 0.6 else None
+        # ---- magnitudes (class 2): a trait in very small units next to ordinary ones; a large common offset
+        mag = rng.random()
+        if mag < 0.22:
+            k = rng.randrange(t)
+            f = rng.choice(self.TINY)
+            for row in ua:
+                row[k] = Fraction(row[k]) * f
+            if all(Fraction(row[k]) == 0 for row in ua):
+                ua[rng.randrange(p)][k] = f
+            if ud is not None and rng.random() < 0.5:
+                for row in ud:
+                    row[k] = Fraction(row[k]) * f
+        elif mag < 0.36 and n >= 2:
+            k = rng.randrange(t)
+            j0 = rng.randrange(p)
+            for ph in g:                      # locus fixed for the counted allele in every taxon
+                for row in ph:
+                    row[j0] = 1
+            ua[j0][k] = self.BIGEFF * rng.choice([1, -1, 3])
+            if ud is not None:
+                ud[j0][k] = Fraction(ud[j0][k])
+            off = ploidy * Fraction(ua[j0][k])
+            for row in Y:                     # responses share the offset: SSE and SST stay of order 1
+                row[k] = Fraction(row[k]) + off
+            if rng.random() < 0.5:
+                beta[0][k] = Fraction(beta[0][k]) + 25000
+                for row in Y:
+                    row[k] = row[k] + 25000
+        # ---- exact cancellation (ties): effects that sum to exactly zero over markers / traits (never together with
+        #      the large offset: a column mixing 1e7 and 1 loses the small entries to the rounding of from_numpy/unscale)
+        offset_case = 0.22 <= mag < 0.36 and n >= 2
+        if rng.random() < 0.15 and p >= 2 and not offset_case:
+            for mat in ([ud] if ud is not None else []) + ([ua] if rng.random() < 0.5 else []):
+                for k in range(t):
+                    tot = sum(Fraction(mat[j][k]) for j in range(p - 1))
+                    mat[p - 1][k] = -tot
+                if all(Fraction(v) == 0 for r in mat for v in r):
+                    mat[0][0], mat[1][0] = 2, -2
+        opts = {}
+        if rng.random() < 0.3:
+            opts["cls"] = "RR"
+        if rng.random() < 0.45:
+            opts["layout"] = rng.choice(["F", "strided", "neg", "ro", "int8", "float"])
+        if rng.random() < 0.4:
+            opts["pt"] = rng.choice(["ndarray", "df", "bvm_perm", "bvm_perm", "bvm_relabel"])
+        if rng.random() < 0.4:
+            opts["direct"] = True
+        if rng.random() < 0.15:
+            opts["trait_none"] = True            # optional field absent: a model without trait names
+        if rng.random() < 0.45:
+            how = rng.choice(["ctor", "ctor", "scalar", "assign", "raw"])
+            if how == "raw":
+                loc, sc = [0] * t, [1] * t
+            elif how == "scalar":
+                loc = [rng.choice([0, 3, Fraction(-5, 2), 48])] * t
+                sc = [rng.choice([1, 2, Fraction(1, 2), 4])] * t
+            else:
+                loc = [rng.choice([0, 3, Fraction(-5, 2), 48, -7]) for _ in range(t)]
+                sc = [rng.choice([1, 2, Fraction(1, 2), 4, Fraction(1, 4)]) for _ in range(t)]
+            # the stored (standardised) values are chosen so that the raw values are exactly the responses
+            mat = [[(Fraction(Y[i][k]) - Fraction(loc[k])) / Fraction(sc[k]) for k in range(t)] for i in range(n)]
+            opts["bv"] = {"how": how, "mat": canon.enc(mat), "loc": canon.enc(loc), "scale": canon.enc(sc)}
         c = {"kind": "lin", "ploidy": ploidy, "g": g, "t": t,
-             "beta": canon.enc(self._eff(rng, q, t)), "ua": canon.enc(self._eff(rng, p, t)),
-             "ud": canon.enc(self._eff(rng, p, t)) if rng.random() < 0.6 else None,
-             "taxa": names if labelled else None, "grp": grp if labelled and rng.random() < 0.8 else None,
-             "perm": perm, "cuts": cuts, "X": canon.enc(X), "Y": canon.enc(Y)}
+             "beta": canon.enc(beta), "ua": canon.enc(ua),
+             "ud": canon.enc(ud) if ud is not None else None,
+             "taxa": names if labelled else None,
+             "grp": grp if (labelled and rng.random() < 0.8) or (not labelled and rng.random() < 0.4) else None,
+             "perm": perm, "cuts": cuts, "X": canon.enc(X), "Y": canon.enc(Y), "opts": opts}
         return c
+
+    def _big_case(self, rng, which=None):
+        """sizes past internal constants (chunk lengths, 8-bit accumulators)"""
+        which = which or rng.choice(["p", "p", "n"])
+        if which == "p":
+            n, p, t = rng.choice([2, 3]), rng.choice([1030, 1100, 2050]), rng.choice([1, 2])
+        elif which == "n":
+            n, p, t = rng.choice([1030, 1100]), rng.choice([1, 2]), 1
+        elif which == "p-small":
+            n, p, t = 2, 1030, 1
+        else:
+            n, p, t = 1030, 1, 1
+        g = [[[rng.randint(0, 1) for _ in range(p)] for _ in range(n)] for _ in range(2)]
+        ua = [[rng.choice([-3, -2, -1, 1, 1, 2, 3, Fraction(1, 2), 0]) for _ in range(t)] for _ in range(p)]
+        for k in range(t):
+            ua[p - 1][k] = rng.choice([1, -2, 3])          # the last markers always matter
+        ud = [[rng.choice([-1, 0, 1, 2]) for _ in range(t)] for _ in range(p)] if rng.random() < 0.5 else None
+        return {"kind": "big", "ploidy": 2, "g": g, "t": t, "beta": canon.enc([[rng.choice([0, 2, -5])] * t]),
+                "ua": canon.enc(ua), "ud": canon.enc(ud) if ud is not None else None,
+                "taxa": ["b%04d" % i for i in range(n)], "grp": None}
 
     def _alleles_case(self, rng):
         ploidy = rng.choice([1, 2, 2, 2, 3, 4])
-        n = rng.choice([1, 2, 3, 5, 8, 49, 98, 103, 107]) if rng.random() < 0.25 else rng.randint(1, 8)
-        p = rng.randint(1, 6)
+        r = rng.random()
+        if r < 0.2:
+            n = rng.choice([1, 2, 3, 5, 8, 49, 98, 103, 107])
+        elif r < 0.27:
+            n = rng.choice([130, 200, 300])          # counts beyond 127 / 255
+        else:
+            n = rng.randint(1, 8)
+        p = rng.randint(1, 6) if n < 130 else rng.randint(1, 3)
         t = rng.choice([1, 2, 3])
         g = self._geno(rng, ploidy, n, p)
-        ua = [[rng.choice([-2, -1, Fraction(-1, 2), 0, 0, Fraction(1, 4), 1, 3]) for _ in range(t)] for _ in range(p)]
-        return {"kind": "alleles", "ploidy": ploidy, "g": g, "ua": canon.enc(ua)}
+        pool = [-2, -1, Fraction(-1, 2), 0, 0, Fraction(1, 4), 1, 3]
+        if rng.random() < 0.35:                       # non-zero effects far below any tolerance: not neutral
+            pool = pool + [Fraction(1, 2 ** 40), Fraction(-1, 2 ** 40), Fraction(1, 2 ** 20), Fraction(-3, 2 ** 30)]
+        ua = [[rng.choice(pool) for _ in range(t)] for _ in range(p)]
+        c = {"kind": "alleles", "ploidy": ploidy, "g": g, "ua": canon.enc(ua)}
+        opts = {}
+        if rng.random() < 0.4:
+            opts["cls"] = rng.choice(["RR", "DOM"])
+        if rng.random() < 0.5:
+            opts["dtype"] = {"count": rng.choice(["int64", "int32", "int16"]),
+                             "flag": rng.choice(["bool", "int", "int8", "float64"])}
+        if rng.random() < 0.3:
+            opts["negzero"] = True          # exact zeros stored as -0.0: still zero, still neutral
+        if opts:
+            c["opts"] = opts
+        return c
 
     def _gs_case(self, rng):
         n = rng.choice([1, 2, 2, 3, 3, 4, 5])
@@ -267,14 +412,48 @@ class C04(Prop):
         p = rng.choice([1, 2, 3, 4])
         n = rng.choice([2, 3, 4, 6, 8])
         Z, Y = self._train(rng, n, p, 1, allpoly=True)
-        return {"kind": "ml0", "Z": Z, "y": canon.enc([r[0] for r in Y]), "maxiter": rng.choice([1, 2, 3, 4])}
+        c = {"kind": "ml0", "Z": Z, "y": canon.enc([r[0] for r in Y]), "maxiter": rng.choice([1, 2, 3, 4])}
+        r = rng.random()
+        if r < 0.12:        # the rarely used solver options: tolerance 0 ("iterate as far as possible"), default sweeps
+            c.update({"gsatol": 0, "maxiter": 1000})
+        elif r < 0.2:
+            c["gsatol"] = canon.enc(rng.choice([Fraction(1, 4), Fraction(1, 1024)]))
+        return c
 
     def _fit_case(self, rng):
         p = rng.choice([1, 2, 3, 4, 5, 6, 8])
         n = rng.choice([2, 3, 4, 5, 6, 7, 9, 12, 14])
         t = rng.choice([1, 1, 2])
-        Z, Y = self._train(rng, n, p, t)
-        return {"kind": "fit", "Z": Z, "Y": canon.enc(Y), "via": rng.choice(["fit_numpy", "fit_numpy", "fit", "fit_bvm"])}
+        via = rng.choice(["fit_numpy", "fit_numpy", "fit", "fit_bvm"])
+        opts = {}
+        if via == "fit" and rng.random() < 0.3:      # many records through an int8 matrix (sums beyond 127)
+            n = rng.choice([33, 40, 64, 70])
+            p = rng.choice([1, 2, 3])
+        Z, Y = self._train(rng, n, p, t, dup=(n < 30))
+        if rng.random() < 0.25:                       # large common offset of the responses
+            off = rng.choice([2 ** 20 + Fraction(1, 64), 25000 + Fraction(33, 64), -(2 ** 18) - Fraction(5, 64)])
+            k = rng.randrange(t)
+            for row in Y:
+                row[k] = Fraction(row[k]) + off
+        if via == "fit_numpy" and rng.random() < 0.4:
+            opts["layout"] = rng.choice(["F", "int", "strided"])
+        if via == "fit" and rng.random() < 0.4:
+            opts["phased"] = True
+        if via == "fit_bvm" and rng.random() < 0.6:
+            how = rng.choice(["ctor", "scalar", "assign", "raw"])
+            if how == "raw":
+                loc, sc = [0] * t, [1] * t
+            elif how == "scalar":
+                loc, sc = [rng.choice([0, 3, 48])] * t, [rng.choice([1, 2, Fraction(1, 2)])] * t
+            else:
+                loc = [rng.choice([0, 3, Fraction(-5, 2), 48]) for _ in range(t)]
+                sc = [rng.choice([1, 2, Fraction(1, 2), 4]) for _ in range(t)]
+            mat = [[(Fraction(Y[i][k]) - Fraction(loc[k])) / Fraction(sc[k]) for k in range(t)] for i in range(n)]
+            opts["bv"] = {"how": how, "mat": canon.enc(mat), "loc": canon.enc(loc), "scale": canon.enc(sc)}
+        c = {"kind": "fit", "Z": Z, "Y": canon.enc(Y), "via": via}
+        if opts:
+            c["opts"] = opts
+        return c
 
     def _refit_case(self, rng):
         t = rng.choice([1, 1, 2])
@@ -302,11 +481,22 @@ class C04(Prop):
                 Y[0][k] = Y[0][k] + 1
         has_d = rng.random() < 0.6
         setters = ["u_a", "u_a", "beta", "trait"] + (["u_d"] if has_d else []) + (["u_misc"] if pm else [])
+        # round 4: edits that do not go through a setter, and aliasing probes
+        setters += ["u_a_inplace", "u_a_inplace", "beta_inplace", "geno_flip", "copy_mutate", "out_mutate"]
+        setters += ["u_d_inplace"] if has_d else []
         steps = []
         for _ in range(rng.choice([1, 2, 2, 3, 4])):
             w = rng.choice(setters)
             if w == "trait":
                 steps.append({"set": "trait", "value": ["new%d_%d" % (len(steps), k) for k in range(t)]})
+            elif w in ("u_a_inplace", "u_d_inplace", "beta_inplace"):
+                rows = q if w == "beta_inplace" else p
+                steps.append({"set": w, "j": rng.randrange(rows), "k": rng.randrange(t),
+                              "value": canon.enc(rng.choice([-4, 5, Fraction(7, 2), Fraction(-9, 4), 6]))})
+            elif w == "geno_flip":
+                steps.append({"set": w, "ph": rng.randrange(ploidy), "i": rng.randrange(n), "j": rng.randrange(p)})
+            elif w in ("copy_mutate", "out_mutate"):
+                steps.append({"set": w})
             else:
                 rows = {"u_a": p, "u_d": p, "beta": q, "u_misc": pm}[w]
                 steps.append({"set": w, "value": canon.enc(self._eff(rng, rows, t, zeros=(w != "u_a")))})
@@ -362,12 +552,104 @@ class C04(Prop):
             # refit through a fitted object: same shapes, different data (monomorphic column moves)
             {"kind": "refit", "Z1": [[0, 1, 2], [1, 1, 2], [2, 0, 2], [1, 2, 2]], "Y1": [[1], [2], [4], [3]],
              "Z2": [[1, 1, 0], [1, 0, 2], [1, 2, 1], [1, 1, 1]], "Y2": [[5], [1], [0], [2]]},
-        ] + self._finding_cases()
+        ] + self._round4_cases() + self._finding_cases()
+
+    def _round4_cases(self):
+        """one deterministic case per input class added in round 4 (so that the self-test never depends on the PRNG)"""
+        import random
+        T17 = "1/131072"
+
+        def bv(how, Y, loc, sc):
+            mat = [[(Fraction(canon.dec(Y[i][k])) - Fraction(canon.dec(loc[k]))) / Fraction(canon.dec(sc[k]))
+                    for k in range(len(loc))] for i in range(len(Y))]
+            return {"how": how, "mat": canon.enc(mat), "loc": loc, "scale": sc}
+        cases = [
+            # a trait expressed in very small units next to an ordinary one: var_a = 4*(2^-17)^2*(...) <= 1e-8 but > 0;
+            # every *_numpy / base-class entry point; rrBLUPModel0 as the class
+            {"kind": "lin", "ploidy": 2, "t": 2,
+             "g": [[[0, 1, 1], [1, 1, 0], [0, 0, 1], [1, 0, 1]], [[1, 1, 0], [1, 0, 0], [0, 1, 1], [0, 0, 1]]],
+             "beta": [[1, 2], [3, "1/2"]], "ua": [[1, T17], [-2, "3/131072"], ["1/2", "-1/131072"]],
+             "ud": [[1, T17], [0, 0], ["1/2", 1]],
+             "taxa": ["d", "a", "c", "b"], "grp": [3, 1, 2, 1], "perm": [2, 0, 3, 1], "cuts": [1],
+             "X": [[1, 0], [1, 1], [1, 2], [1, "1/2"]], "Y": [[1, 2], [3, 5], [2, 2], [0, 1]],
+             "opts": {"cls": "RR", "direct": True, "pt": "bvm_perm", "layout": "F",
+                      "bv": bv("raw", [[1, 2], [3, 5], [2, 2], [0, 1]], [0, 0], [1, 1])}},
+            # large common offset: a locus fixed in every taxon with effect 3 * 2^24, intercept + 25000;
+            # reference-scaled breeding value matrix (location / scale of another panel); phenotypes with other labels
+            {"kind": "lin", "ploidy": 2, "t": 1,
+             "g": [[[1, 1, 0], [1, 0, 0], [1, 1, 1]], [[1, 0, 1], [1, 0, 0], [1, 1, 0]]],
+             "beta": [[25001]], "ua": [[50331648], [1], [-2]], "ud": None,
+             "taxa": ["z", "x", "y"], "grp": None, "perm": [1, 2, 0], "cuts": [1, 2],
+             "X": [[1], [1], [1]], "Y": [[100688297], [100688295], [100688298]],
+             "opts": {"direct": True, "pt": "bvm_relabel", "layout": "strided",
+                      "bv": bv("ctor", [[100688297], [100688295], [100688298]], [48], [2])}},
+            # location / scale assigned after construction, tetraploid, read-only inputs, DataFrame phenotypes
+            {"kind": "lin", "ploidy": 4, "t": 2,
+             "g": [[[0, 1], [1, 1], [0, 0]], [[1, 1], [1, 0], [0, 0]], [[0, 1], [1, 1], [0, 1]], [[1, 0], [1, 1], [0, 0]]],
+             "beta": [[1, 0]], "ua": [[1, -1], ["3/2", 2]], "ud": [[1, 0], ["-1/2", 3]],
+             "taxa": None, "grp": None, "perm": [0, 2, 1], "cuts": [1],
+             "X": [[1], [1], [1]], "Y": [[3, 1], [5, 0], [1, 7]],
+             "opts": {"pt": "df", "layout": "ro", "direct": True,
+                      "bv": bv("assign", [[3, 1], [5, 0], [1, 7]], [0, 0], [2, "1/4"])}},
+            # negative strides, int8 raw arrays, scalar location / scale
+            {"kind": "lin", "ploidy": 2, "t": 2, "g": [[[0, 1], [1, 1]], [[1, 1], [0, 0]]],
+             "beta": [[0, 1], [2, 2], [1, 0]], "ua": [[1, 2], [-1, "1/2"]], "ud": None,
+             "taxa": ["q", "p"], "grp": [2, 2], "perm": [1, 0], "cuts": [],
+             "X": [[1, 0, 1], [1, 2, 0]], "Y": [[7, 3], [1, 9]],
+             "opts": {"layout": "neg", "pt": "ndarray", "trait_none": True,
+                      "bv": bv("scalar", [[7, 3], [1, 9]], [3, 3], [2, 2])}},
+            {"kind": "lin", "ploidy": 2, "t": 1, "g": [[[0, 1], [1, 1], [1, 0]], [[1, 1], [0, 0], [0, 0]]],
+             "beta": [[2]], "ua": [[1], [-3]], "ud": [[2], [1]],
+             "taxa": ["q", "p", "r"], "grp": [2, 1, 2], "perm": [1, 0, 2], "cuts": [1],
+             "X": [[1], [1], [1]], "Y": [[0], [1], [5]], "opts": {"layout": "int8", "direct": True}},
+            # dominance effects that cancel exactly (sum 0 over markers and traits) but are not zero; tetraploid
+            {"kind": "lin", "ploidy": 4, "t": 2,
+             "g": [[[0, 1], [1, 1], [0, 0]], [[1, 1], [1, 0], [0, 0]], [[0, 1], [1, 1], [0, 1]], [[1, 0], [1, 1], [0, 0]]],
+             "beta": [[1, 0]], "ua": [[1, -1], [-1, 1]], "ud": [[2, -3], [-2, 3]],
+             "taxa": ["m", "k", "l"], "grp": [1, 2, 1], "perm": [2, 0, 1], "cuts": [1],
+             "X": [[1], [1], [1]], "Y": [[3, 1], [5, 0], [1, 7]], "opts": {"direct": True}},
+            # three identical polymorphic markers (perfect LD), as many records as markers
+            {"kind": "fit", "via": "fit_numpy", "Z": [[0, 0, 0], [1, 1, 1], [2, 2, 2]], "Y": [[1], [2], [4]]},
+            # alleles: effects of order 2^-40 are not neutral; 200 diploid taxa (counts up to 400); dtype arguments
+            {"kind": "alleles", "ploidy": 2, "g": [[[0, 1, 1, 0], [0, 1, 0, 1]], [[0, 1, 1, 1], [0, 1, 0, 0]]],
+             "ua": [["1/1099511627776", "-1/1099511627776"], ["-1/1099511627776", 0], ["1/1048576", 1], [0, "-3/1073741824"]],
+             "opts": {"cls": "DOM", "dtype": {"count": "int16", "flag": "int8"}, "negzero": True}},
+            {"kind": "alleles", "ploidy": 2,
+             "g": [[[(i * 7 + j) % 3 % 2 for j in range(2)] for i in range(200)],
+                   [[1 if j == 0 else (i % 5 == 0) * 1 for j in range(2)] for i in range(200)]],
+             "ua": [[1, -1, 0], [-2, "1/2", 0]], "opts": {"cls": "RR", "dtype": {"count": "int32", "flag": "float64"}}},
+            # fit: responses 2^20 + k/64, 40 records through an int8 matrix, breeding value matrix with explicit scaling
+            {"kind": "fit", "via": "fit", "Z": [[0 if i % 4 == 0 else 2, (i * 5 + 3) % 3] for i in range(64)],
+             "Y": [[canon.enc(2 ** 20 + Fraction(1, 64) + (0 if i % 4 == 0 else 2) * 2 - ((i * 5 + 3) % 3) + Fraction(i % 4, 2))]
+                   for i in range(64)]},
+            {"kind": "fit", "via": "fit_bvm", "Z": [[0, 1, 2], [1, 1, 2], [2, 0, 2], [1, 2, 2], [0, 0, 2], [2, 2, 2]],
+             "Y": [[1, 0], [2, 3], [4, 1], [3, 1], [0, 2], [5, "1/2"]],
+             "opts": {"bv": bv("ctor", [[1, 0], [2, 3], [4, 1], [3, 1], [0, 2], [5, "1/2"]], [2, 0], [1, "1/4"])}},
+            {"kind": "fit", "via": "fit_numpy", "Z": [[0, 1], [1, 1], [2, 0], [1, 2], [0, 0]],
+             "Y": [["1600033/64"], ["1600161/64"], ["1600289/64"], ["1600097/64"], ["1599969/64"]], "opts": {"layout": "int"}},
+            {"kind": "fit", "via": "fit", "Z": [[0, 1, 2], [1, 1, 2], [2, 0, 2], [1, 2, 2], [0, 0, 2]],
+             "Y": [[1], [2], [4], [4], [0]], "opts": {"phased": True}},
+            # in-place edits, genotype edits, copies and returned arrays that are mutated
+            {"kind": "requery", "ploidy": 2, "t": 2, "g": [[[0, 1], [1, 1], [0, 0]], [[1, 1], [1, 0], [0, 0]]],
+             "beta": [[1, 0], [2, 1]], "ua": [[1, 2], [-2, 1]], "ud": [[1, 0], [0, 3]], "um": None, "Zm": None,
+             "taxa": ["c", "a", "b"], "grp": [3, 1, 2], "X": [[1, 0], [1, 1], [1, 2]], "Y": [[1, 0], [3, 2], [2, 5]],
+             "steps": [{"set": "out_mutate"}, {"set": "u_a_inplace", "j": 1, "k": 0, "value": 5},
+                       {"set": "copy_mutate"}, {"set": "geno_flip", "ph": 1, "i": 2, "j": 0},
+                       {"set": "beta_inplace", "j": 1, "k": 1, "value": "-9/4"},
+                       {"set": "u_d_inplace", "j": 0, "k": 1, "value": 6}]},
+        ]
+        rng = random.Random(20240930)
+        cases.append(self._big_case(rng, "p-small"))
+        cases.append(self._big_case(rng, "n-small"))
+        return cases
 
     @staticmethod
     def _finding_cases():
-        """n > p training sets on which gauss_seidel stops at maxiter = 1000 far from the solution (D22)"""
+        """n > p training sets on which gauss_seidel stops at maxiter = 1000 far from the solution (D22);
+        gsatol = 0: the first loop test `2*atol > atol` is false, no sweep is performed, all effects are 0 (D22b)"""
         return [
+            {"kind": "ml0", "Z": [[0, 1], [1, 1], [2, 0], [1, 2], [0, 0], [2, 2]], "y": [1, 2, 4, 3, 0, 5],
+             "maxiter": 1000, "gsatol": 0},
             # two identical markers, three records: 1000 sweeps cover 4 % of the way to the solution
             {"kind": "fit", "via": "fit_numpy", "Z": [[1, 1], [0, 0], [1, 1]], "Y": [[4], [5], [4]]},
             # full column rank, 6 records x 5 markers, cond(Z'Z) ~ 1e3: relative residual 3.5e-4, error in u 0.13
@@ -392,6 +674,8 @@ class C04(Prop):
                 out.append(self._requery_case(rng))
             elif r < 0.91:
                 out.append(self._refit_case(rng))
+            elif r < 0.916 and tier == "thorough":       # quick tier: the two corpus cases only (cost)
+                out.append(self._big_case(rng))
             else:
                 out.append(self._fit_case(rng))
         return out
@@ -406,20 +690,75 @@ class C04(Prop):
         raw = arr.sum(0, dtype="int64")
         return pg, ug, raw
 
+    @staticmethod
+    def _layout(a, how):
+        """the same values in another memory layout / dtype (class 4: argument forms)"""
+        if a is None or how is None:
+            return a
+        if how == "F":
+            return numpy.asfortranarray(a)
+        if how == "strided":
+            big = numpy.full((a.shape[0] * 2 + 1, a.shape[1] * 2 + 1), 7, dtype=a.dtype)
+            big[1::2, 1::2] = a
+            return big[1::2, 1::2]
+        if how == "neg":
+            return numpy.ascontiguousarray(a[::-1, ::-1])[::-1, ::-1]
+        if how == "ro":
+            b = a.copy()
+            b.setflags(write=False)
+            return b
+        return a
+
+    def _mk_bvm(self, m, bv, Y, taxa, grp, trait):
+        """a breeding value matrix holding the responses Y with the location / scale the case prescribes"""
+        tx = None if taxa is None else numpy.array(taxa, dtype=object)
+        gp = None if grp is None else numpy.array(grp, dtype=int)
+        if bv is None:
+            return m.BVM.from_numpy(Y.copy(), taxa=tx, taxa_grp=gp, trait=trait)
+        t = Y.shape[1]
+        mat = _farr(bv["mat"], t)
+        loc = numpy.array([_f(v) for v in bv["loc"]], dtype=float)
+        sc = numpy.array([_f(v) for v in bv["scale"]], dtype=float)
+        how = bv["how"]
+        if how == "raw":          # the constructor defaults: raw values, location 0, scale 1
+            return m.BVM(mat, taxa=tx, taxa_grp=gp, trait=trait)
+        if how == "scalar":
+            return m.BVM(mat, location=float(loc[0]), scale=float(sc[0]), taxa=tx, taxa_grp=gp, trait=trait)
+        if how == "assign":       # built from other data, then re-assigned through the public setters
+            b = m.BVM.from_numpy(Y[::-1, :] * 3.0 + 1.0, taxa=tx, taxa_grp=gp, trait=trait)
+            b.mat = mat
+            b.location = loc
+            b.scale = sc
+            return b
+        return m.BVM(mat, location=loc, scale=sc, taxa=tx, taxa_grp=gp, trait=trait)
+
     def _run_lin(self, case):
         m = _mods()
         ploidy, t = case["ploidy"], case["t"]
+        opts = case.get("opts") or {}
+        lay = opts.get("layout")
         g = case["g"]
         n, p = len(g[0]), len(case["ua"])
-        beta = _farr(case["beta"], t)
-        ua = _farr(case["ua"], t)
-        ud = None if case["ud"] is None else _farr(case["ud"], t)
-        trait = numpy.array(["trait%d" % k for k in range(t)], dtype=object)
-        X = _farr(case["X"], beta.shape[0])
-        Y = _farr(case["Y"], t)
+        L = self._layout
+        beta = L(_farr(case["beta"], t), lay)
+        ua = L(_farr(case["ua"], t), lay)
+        ud = None if case["ud"] is None else L(_farr(case["ud"], t), lay)
+        trait = None if opts.get("trait_none") else numpy.array(["trait%d" % k for k in range(t)], dtype=object)
+        X = L(_farr(case["X"], beta.shape[0]), lay)
+        Y = L(_farr(case["Y"], t), lay)
         pg, ug, raw = self._mk_geno(m, g, case["taxa"], case["grp"], ploidy)
-        snap = (pg.mat.copy(), ug.mat.copy(), raw.copy(), beta.copy(), ua.copy())
-        add = m.ADD(beta=beta, u_misc=None, u_a=ua, trait=trait)
+        if lay == "F":
+            pg = m.PGM(numpy.asfortranarray(pg.mat), taxa=pg.taxa, taxa_grp=pg.taxa_grp)
+            ug = m.GM(numpy.asfortranarray(ug.mat), taxa=ug.taxa, taxa_grp=ug.taxa_grp, ploidy=ploidy)
+        if lay == "int8":
+            raw = raw.astype("int8")
+        elif lay == "float":
+            raw = raw.astype(float)
+        else:
+            raw = L(raw, lay)
+        snap = (pg.mat.copy(), ug.mat.copy(), raw.copy(), beta.copy(), ua.copy(), X.copy(), Y.copy())
+        ADDC = m.RR if opts.get("cls") == "RR" else m.ADD
+        add = ADDC(beta=beta, u_misc=None, u_a=ua, trait=trait)
         perm = case["perm"]
         pgp, ugp, rawp = self._mk_geno(m, _gperm(g, perm), _take(case["taxa"], perm), _take(case["grp"], perm), ploidy)
         obs = {"views": {}, "stats": {}}
@@ -435,6 +774,27 @@ class C04(Prop):
         V["predict_phased"] = _bv(add.predict(X, pg))
         V["predict_raw"] = _bv(add.predict(X, raw))
         V["predict_perm"] = _bv(add.predict(X[perm, :], ugp))
+        # TrueBreedingValue.estimate with phenotype records: the rows are still the genotype input's
+        pt = opts.get("pt")
+        if pt is not None:
+            if pt == "ndarray":
+                ptobj = Y.copy()
+            elif pt == "df":
+                import pandas
+                ptobj = pandas.DataFrame({"taxa": ["r%d" % i for i in range(n)][::-1],
+                                          **{"y%d" % k: Y[:, k] for k in range(t)}})
+            else:
+                order = list(range(n))[::-1] if n > 1 else [0]
+                if perm != list(range(n)) and pt == "bvm_perm":
+                    order = perm
+                names = case["taxa"] if case["taxa"] is not None else ["tx%02d" % i for i in range(n)]
+                if pt == "bvm_relabel":
+                    names = ["other%02d" % i for i in range(n)]
+                pgrp = case["grp"] if case["grp"] is not None else list(range(10, 10 + n))
+                ptobj = m.BVM.from_numpy(Y[order, :].copy(), taxa=numpy.array(_take(names, order), dtype=object),
+                                         taxa_grp=numpy.array(_take(pgrp, order), dtype=int), trait=trait)
+            V["gebv_tbv_pt"] = _bv(m.TBV(add).estimate(ptobj, pg))
+            V["gebv_tbv_pt_unphased"] = _bv(m.TBV(add).estimate(ptobj, ug))
         # marker partition through the public API: one sub-model per block, intercept in the first only
         bounds = [0] + list(case["cuts"]) + [p]
         parts = []
@@ -457,9 +817,47 @@ class C04(Prop):
         S["bulmer_raw"] = canon.enc(add.bulmer(raw, ploidy))
         S["score"] = canon.enc(add.score(Y, X, pg))
         S["score_raw"] = canon.enc(add.score(Y, X, raw))
-        bvm = m.BVM.from_numpy(Y.copy(), taxa=pg.taxa, taxa_grp=pg.taxa_grp, trait=trait)
+        bvm = self._mk_bvm(m, opts.get("bv"), Y, case["taxa"], case["grp"], trait)
         S["score_bvm"] = canon.enc(add.score(bvm, X, pg))
+        S["score_bvm_raw"] = canon.enc(add.score(bvm, X, raw))
         obs["bvm"] = {"mat": canon.enc(bvm.mat), "loc": canon.enc(bvm.location), "scale": canon.enc(bvm.scale)}
+        obs["bvm_holds_Y"] = self._cl(canon.enc(bvm.unscale()), case["Y"])
+        A = raw.astype(float)
+        if opts.get("direct"):
+            pfreq = pg.afreq()
+            V["gebv_numpy_int8"] = {"mat": canon.enc(add.gebv_numpy(raw.astype("int8")))}
+            V["gegv_numpy_add"] = {"mat": canon.enc(add.gegv_numpy(A))}
+            V["predict_numpy"] = {"mat": canon.enc(add.predict_numpy(X, A))}
+            V["predict_baseclass"] = _bv(m.LIN.predict(add, X, pg))
+            S["var_A_numpy"] = canon.enc(add.var_A_numpy(A))
+            S["var_G_numpy"] = canon.enc(add.var_G_numpy(A))
+            S["var_a_numpy"] = canon.enc(add.var_a_numpy(pfreq, ploidy))
+            S["bulmer_numpy"] = canon.enc(add.bulmer_numpy(A, pfreq, ploidy))
+            S["score_numpy"] = canon.enc(add.score_numpy(Y, X, A))
+            S["score_baseclass"] = canon.enc(m.LIN.score(add, Y, X, pg))
+            S["score_baseclass_bvm"] = canon.enc(m.LIN.score(add, bvm, X, ug))
+            S["var_A_baseclass"] = canon.enc(m.LIN.var_A(add, pg))
+            S["var_G_baseclass"] = canon.enc(m.LIN.var_G(add, ug))
+            S["bulmer_baseclass"] = canon.enc(m.LIN.bulmer(add, pg))
+            S["bulmer_numpy_baseclass"] = canon.enc(m.LIN.bulmer_numpy(add, A, pfreq, ploidy))
+            V["gebv_numpy_baseclass"] = {"mat": canon.enc(m.LIN.gebv_numpy(add, A))}
+            V["predict_numpy_baseclass"] = {"mat": canon.enc(m.LIN.predict_numpy(add, X, A))}
+            S["var_a_numpy_baseclass"] = canon.enc(m.LIN.var_a_numpy(add, pfreq, ploidy))
+            S["score_numpy_baseclass"] = canon.enc(m.LIN.score_numpy(add, Y, X, A))
+            S["var_A_numpy_baseclass"] = canon.enc(m.LIN.var_A_numpy(add, A))
+            V["gebv_tbv_raw"] = _bv(m.TBV(add).estimate(Y, raw))
+            # models produced by the factories / copies: judged with THEIR OWN coefficients
+            fac = []
+            for tag, mk in (("pandas", lambda o: type(o).from_pandas_dict(o.to_pandas_dict())),
+                            ("copy", lambda o: o.copy()), ("deepcopy", lambda o: copy.deepcopy(o))):
+                o2 = mk(add)
+                fac.append({"name": "gebv_" + tag, "mode": "gebv", "beta": canon.enc(o2.beta), "ua": canon.enc(o2.u_a),
+                            "ud": None, "view": _bv(o2.gebv(pg))})
+            obs["factory"] = fac
+            # a dominance model without dominance effects (u_d = None -> zeros) is the additive model
+            dz = m.DOM(beta=beta, u_misc=None, u_a=ua, u_d=None, trait=trait)
+            V["gegv_ud_none"] = _bv(dz.gegv(pg))
+            S["var_G_ud_none"] = canon.enc(dz.var_G(ug))
         if ud is not None:
             dom = m.DOM(beta=beta, u_misc=None, u_a=ua, u_d=ud, trait=trait)
             V["gegv_phased"] = _bv(dom.gegv(pg))
@@ -467,6 +865,8 @@ class C04(Prop):
             if ploidy == 2:
                 V["gegv_raw"] = _bv(dom.gegv(raw))
                 V["predict_dom_raw"] = _bv(dom.predict(X, raw))
+                S["var_G_raw"] = canon.enc(dom.var_G(raw))
+                S["score_dom_raw"] = canon.enc(dom.score(Y, X, raw))
             V["gegv_perm"] = _bv(dom.gegv(ugp))
             V["gebv_dom"] = _bv(dom.gebv(pg))
             V["predict_dom"] = _bv(dom.predict(X, pg))
@@ -486,24 +886,95 @@ class C04(Prop):
             S["score_dom_bvm"] = canon.enc(dom.score(bvm, X, pg))
             S["var_a_dom"] = canon.enc(dom.var_a(pg))
             S["bulmer_dom"] = canon.enc(dom.bulmer(ug))
+            if opts.get("direct"):
+                D = numpy.logical_and(raw != 0, raw != ploidy).astype(float)
+                Zd = numpy.concatenate([A, D], axis=1)
+                V["predict_numpy_dom"] = {"mat": canon.enc(dom.predict_numpy(X, Zd))}
+                S["var_G_numpy_dom"] = canon.enc(dom.var_G_numpy(Zd))
+                S["score_numpy_dom"] = canon.enc(dom.score_numpy(Y, X, Zd))
+                S["bulmer_numpy_dom"] = canon.enc(dom.bulmer_numpy(A, pg.afreq(), ploidy))
+                for tag, mk in (("pandas", lambda o: type(o).from_pandas_dict(o.to_pandas_dict())),
+                                ("deepcopy", lambda o: o.deepcopy())):
+                    o2 = mk(dom)
+                    obs["factory"].append({"name": "gegv_" + tag, "mode": "gegv", "beta": canon.enc(o2.beta),
+                                           "ua": canon.enc(o2.u_a), "ud": canon.enc(o2.u_d), "view": _bv(o2.gegv(ug))})
         obs["inputs_untouched"] = bool((snap[0] == pg.mat).all() and (snap[1] == ug.mat).all()
-                                       and (snap[2] == raw).all() and (snap[3] == beta).all() and (snap[4] == ua).all())
-        obs["trait"] = [str(x) for x in trait]
+                                       and (snap[2] == raw).all() and (snap[3] == beta).all() and (snap[4] == ua).all()
+                                       and (snap[5] == X).all() and (snap[6] == Y).all())
+        obs["trait"] = None if trait is None else [str(x) for x in trait]
         return obs
 
+    def _run_big(self, case):
+        m = _mods()
+        t = case["t"]
+        g = case["g"]
+        n, p = len(g[0]), len(case["ua"])
+        beta = _farr(case["beta"], t)
+        ua = _farr(case["ua"], t)
+        trait = numpy.array(["trait%d" % k for k in range(t)], dtype=object)
+        pg, ug, raw = self._mk_geno(m, g, case["taxa"], case["grp"], 2)
+        raw8 = raw.astype("int8")
+        A = raw.astype(float)
+        X = numpy.ones((n, 1))
+        add = m.ADD(beta=beta, u_misc=None, u_a=ua, trait=trait)
+        V, S = {}, {}
+        V["gebv_phased"] = _bv(add.gebv(pg))
+        V["gebv_unphased"] = _bv(add.gebv(ug))
+        V["gebv_raw"] = _bv(add.gebv(raw8))
+        V["gebv_raw_float"] = _bv(add.gebv(A))
+        V["gebv_numpy_int8"] = {"mat": canon.enc(add.gebv_numpy(raw8))}
+        V["gebv_numpy"] = {"mat": canon.enc(add.gebv_numpy(A))}
+        V["predict_phased"] = _bv(add.predict(X, pg))
+        S["var_A"] = canon.enc(add.var_A(pg))
+        S["var_A_raw"] = canon.enc(add.var_A(raw8))
+        S["var_a"] = canon.enc(add.var_a(pg))
+        S["bulmer"] = canon.enc(add.bulmer(ug))
+        S["var_a_raw"] = canon.enc(add.var_a(raw8, 2))          # column sums of an int8 array beyond 127
+        S["bulmer_raw"] = canon.enc(add.bulmer(raw8, 2))
+        if case["ud"] is not None:
+            dom = m.DOM(beta=beta, u_misc=None, u_a=ua, u_d=_farr(case["ud"], t), trait=trait)
+            V["gegv_phased"] = _bv(dom.gegv(pg))
+            V["gegv_raw"] = _bv(dom.gegv(raw8))
+            S["var_G"] = canon.enc(dom.var_G(ug))
+        return {"views": V, "stats": S, "trait": [str(x) for x in trait], "inputs_untouched": True}
+
     _ALLELE_FNS = ("facount fafreq faavail fafixed fapoly nafixed napoly dacount dafreq daavail dafixed dapoly").split()
+
+    _FLAG_FNS = ("faavail", "fafixed", "fapoly", "nafixed", "napoly", "daavail", "dafixed", "dapoly")
 
     def _run_alleles(self, case):
         m = _mods()
         ploidy = case["ploidy"]
+        opts = case.get("opts") or {}
         ua = _farr(case["ua"], len(case["ua"][0]))
+        if opts.get("negzero"):
+            ua[ua == 0.0] = -0.0
         beta = numpy.zeros((1, ua.shape[1]))
-        add = m.ADD(beta=beta, u_misc=None, u_a=ua, trait=None)
+        cls = opts.get("cls")
+        if cls == "RR":
+            add = m.RR(beta=beta, u_misc=None, u_a=ua, trait=None)
+        elif cls == "DOM":
+            add = m.DOM(beta=beta, u_misc=None, u_a=ua, u_d=None, trait=None)
+        else:
+            add = m.ADD(beta=beta, u_misc=None, u_a=ua, trait=None)
         pg, ug, _ = self._mk_geno(m, case["g"], None, None, ploidy)
         obs = {"phased": {}, "unphased": {}}
         for fn in self._ALLELE_FNS:
             obs["phased"][fn] = canon.enc(getattr(add, fn)(pg))
             obs["unphased"][fn] = canon.enc(getattr(add, fn)(ug))
+        dt = opts.get("dtype")
+        if dt:
+            d = {}
+            for fn in self._ALLELE_FNS:
+                if fn in ("facount", "dacount"):
+                    out = getattr(add, fn)(pg, dtype=dt["count"])
+                    d[fn] = canon.enc(out.astype("int64"))
+                elif fn in self._FLAG_FNS:
+                    out = getattr(add, fn)(ug, dtype=bool if dt["flag"] == "bool" else dt["flag"])
+                    d[fn] = canon.enc(out != 0)
+                else:
+                    d[fn] = canon.enc(getattr(add, fn)(pg, dtype="float64"))
+            obs["dtyped"] = d
         return obs
 
     def _run_gs(self, case):
@@ -517,16 +988,25 @@ class C04(Prop):
         m = _mods()
         Z = numpy.array(case["Z"], dtype=float)
         y = numpy.array([_f(v) for v in case["y"]], dtype=float)
-        out = m.rr.rrBLUP_ML0(y, Z, gsmaxiter=case["maxiter"])
+        kw = {} if "gsatol" not in case else {"gsatol": _f(case["gsatol"])}
+        out = m.rr.rrBLUP_ML0(y, Z, gsmaxiter=case["maxiter"], **kw)
         ridge = m.rr.rrBLUP_ML0_calc_ridge(out["varE"], out["varU"])
         return {"betahat": canon.enc(out["betahat"]), "uhat": canon.enc(out["uhat"]), "ridge": canon.enc(ridge),
                 "yhat": canon.enc(out["yhat"])}
 
     def _run_fit(self, case):
         m = _mods()
+        opts = case.get("opts") or {}
         Z = numpy.array(case["Z"], dtype=float)
         t = len(case["Y"][0])
         Y = _farr(case["Y"], t)
+        lay = opts.get("layout")
+        if lay == "int":
+            Z = numpy.array(case["Z"], dtype="int64")
+        else:
+            Z = self._layout(Z, lay)
+            Y = self._layout(Y, lay)
+        snap = (Z.copy(), Y.copy())
         rec = []
         inner = m.rr.rrBLUP_ML0
 
@@ -538,17 +1018,23 @@ class C04(Prop):
         m.rr.rrBLUP_ML0 = recorder
         try:
             if case.get("via") == "fit":
-                gmat = m.GM(numpy.array(case["Z"], dtype="int8"), ploidy=2)
+                Zi = numpy.array(case["Z"], dtype="int8")
+                if opts.get("phased"):       # a phased matrix with the same dosages
+                    gmat = m.PGM(numpy.stack([(Zi >= 1).astype("int8"), (Zi >= 2).astype("int8")]))
+                else:
+                    gmat = m.GM(Zi, ploidy=2)
                 mod = m.RR.fit(Y, None, gmat)
             elif case.get("via") == "fit_bvm":     # phenotypes handed over as a breeding value matrix
                 gmat = m.GM(numpy.array(case["Z"], dtype="int8"), ploidy=2)
-                mod = m.RR.fit(m.BVM.from_numpy(Y.copy()), None, gmat)
+                bvm = self._mk_bvm(m, opts.get("bv"), Y, None, None, None)
+                mod = m.RR.fit(bvm, None, gmat)
             else:
                 mod = m.RR.fit_numpy(Y, None, Z)
         finally:
             m.rr.rrBLUP_ML0 = inner
         return {"beta": canon.enc(mod.beta), "u_a": canon.enc(mod.u_a), "ridges": [r["ridge"] for r in rec],
-                "sols": [r["uhat"] for r in rec], "class": type(mod).__name__}
+                "sols": [r["uhat"] for r in rec], "class": type(mod).__name__,
+                "training_data_untouched": bool((snap[0] == Z).all() and (snap[1] == Y).all())}
 
     def _fit_recorded(self, m, caller, Y, Z):
         rec = []
@@ -649,12 +1135,26 @@ class C04(Prop):
 
     @staticmethod
     def _stage_params(case):
-        """parameters in force after 0, 1, 2, ... assignments"""
+        """parameters (and genotypes) in force after 0, 1, 2, ... steps"""
         cur = {"beta": case["beta"], "u_a": case["ua"], "u_d": case["ud"], "u_misc": case["um"],
-               "trait": ["trait%d" % k for k in range(case["t"])]}
+               "trait": ["trait%d" % k for k in range(case["t"])], "g": case["g"]}
         out = [dict(cur)]
         for st in case["steps"]:
-            cur[st["set"]] = st["value"]
+            w = st["set"]
+            if w in ("u_a_inplace", "u_d_inplace", "beta_inplace"):
+                key = w[:-len("_inplace")]
+                if cur[key] is not None:
+                    mat = [list(r) for r in cur[key]]
+                    mat[st["j"]][st["k"]] = st["value"]
+                    cur[key] = mat
+            elif w == "geno_flip":
+                g = [[list(r) for r in ph] for ph in cur["g"]]
+                g[st["ph"]][st["i"]][st["j"]] = 1 - g[st["ph"]][st["i"]][st["j"]]
+                cur["g"] = g
+            elif w in ("copy_mutate", "out_mutate"):
+                pass                      # must not change anything
+            else:
+                cur[w] = st["value"]
             out.append(dict(cur))
         return out
 
@@ -675,11 +1175,42 @@ class C04(Prop):
                         u_a=_farr(case["ua"], t), u_d=_farr(case["ud"], t), trait=obj(st0["trait"]))
         stages = [self._query(m, add, dom, case, pg, ug, raw, X, Y, Zm)]
         for st in case["steps"]:
-            for mod in (add, dom):
-                if mod is None or (st["set"] == "u_d" and mod is add):
-                    continue
-                val = obj(st["value"]) if st["set"] == "trait" else _farr(st["value"], t)
-                setattr(mod, st["set"], val)             # the public setter
+            w = st["set"]
+            if w in ("u_a_inplace", "u_d_inplace", "beta_inplace"):
+                for mod in (add, dom):
+                    if mod is None or (w == "u_d_inplace" and mod is add):
+                        continue
+                    getattr(mod, w[:-len("_inplace")])[st["j"], st["k"]] = _f(st["value"])   # no setter call
+            elif w == "geno_flip":
+                ph, i, j = st["ph"], st["i"], st["j"]
+                old = int(pg.mat[ph, i, j])
+                pg.mat[ph, i, j] = 1 - old
+                ug.mat[i, j] += (1 - old) - old
+                raw[i, j] += (1 - old) - old
+            elif w == "copy_mutate":
+                for mod in (add, dom):
+                    if mod is None:
+                        continue
+                    for c in (mod.deepcopy(), mod.copy(), copy.deepcopy(mod)):
+                        c.u_a[...] = 9.0
+                        c.beta[...] = -7.0
+                        c.u_a = numpy.full_like(c.u_a, 3.0)
+                        if mod is dom:
+                            c.u_d[...] = 5.0
+            elif w == "out_mutate":
+                A = raw.astype(float)
+                outs = [add.gebv(pg).mat, add.gebv_numpy(A), add.var_A(pg), add.var_a(pg), add.predict(X, pg).mat
+                        if Zm is None else add.gebv(ug).mat, add.facount(pg), add.bulmer(pg)]
+                if dom is not None:
+                    outs += [dom.gegv(pg).mat, dom.var_G(ug), dom.gebv(ug).mat]
+                for o in outs:
+                    o[...] = 77
+            else:
+                for mod in (add, dom):
+                    if mod is None or (w == "u_d" and mod is add):
+                        continue
+                    val = obj(st["value"]) if w == "trait" else _farr(st["value"], t)
+                    setattr(mod, w, val)             # the public setter
             stages.append(self._query(m, add, dom, case, pg, ug, raw, X, Y, Zm))
         return {"stages": stages}
 
@@ -693,21 +1224,55 @@ class C04(Prop):
         "predict_phased": "predict", "predict_raw": "predict", "predict_perm": "predict", "gebv_parts": "gebv",
         "gegv_phased": "gegv", "gegv_unphased": "gegv", "gegv_raw": "gegv", "gegv_perm": "gegv",
         "gebv_dom": "gebv", "predict_dom": "predict_dom", "predict_dom_raw": "predict_dom", "gegv_parts": "gegv",
+        # round 4
+        "gebv_tbv_pt": "gebv", "gebv_tbv_pt_unphased": "gebv", "gebv_numpy_int8": "gebv_numpy",
+        "gegv_numpy_add": "gebv_numpy", "predict_numpy": "predict", "predict_baseclass": "predict",
+        "gegv_ud_none": "gebv", "predict_numpy_dom": "predict_dom", "gebv_raw_float": "gebv", "gebv_tbv_raw": "gebv",
+        "gebv_numpy_baseclass": "gebv_numpy", "predict_numpy_baseclass": "predict",
     }
-    _UNLABELLED = {"gebv_raw", "predict_raw", "gegv_raw", "predict_dom_raw"}
+    _UNLABELLED = {"gebv_raw", "predict_raw", "gegv_raw", "predict_dom_raw", "gebv_raw_float", "gebv_tbv_raw"}
+    _NOLABELS = {"gebv_numpy", "gebv_numpy_int8", "gegv_numpy_add", "predict_numpy", "predict_numpy_dom",
+                 "gebv_numpy_baseclass", "predict_numpy_baseclass"}
     _PERMUTED = {"gebv_perm", "predict_perm", "gegv_perm"}
+    # plain numpy outputs on dyadic data: every intermediate is representable, the float IS the rational
+    _EXACT = {"gebv_numpy", "gebv_numpy_int8", "gegv_numpy_add", "predict_numpy", "predict_numpy_dom",
+              "gebv_numpy_baseclass", "predict_numpy_baseclass"}
+
+    # statistic variant -> (name of the definition in GSpec.statDef, key of the model output)
+    _STAT = {
+        "var_A": ("var_A", "var_A"), "var_G_add": ("var_A", "var_A"), "var_A_raw": ("var_A", "var_A"),
+        "var_a": ("var_a", "var_a"), "var_a_raw": ("var_a", "var_a"), "var_a_baseclass": ("var_a", "var_a"),
+        "afreq": ("afreq", "afreq"), "bulmer": ("bulmer", "bulmer"), "bulmer_raw": ("bulmer", "bulmer"),
+        "score": ("score", "score"), "score_raw": ("score", "score"), "var_G": ("var_G", "var_G"),
+        "var_G_unphased": ("var_G", "var_G"), "var_A_dom": ("var_A", "var_A"), "score_dom": ("score_dom", "score_dom"),
+        "score_bvm": ("score", "score_bv"), "score_dom_bvm": ("score_dom", "score_dom"), "var_a_dom": ("var_a", "var_a"),
+        "bulmer_dom": ("bulmer", "bulmer"),
+        # round 4
+        "score_bvm_raw": ("score", "score_bv"), "var_A_numpy": ("var_A", "var_A"), "var_G_numpy": ("var_A", "var_A"),
+        "var_a_numpy": ("var_a", "var_a"), "bulmer_numpy": ("bulmer", "bulmer"), "score_numpy": ("score", "score"),
+        "score_baseclass": ("score", "score"), "score_baseclass_bvm": ("score", "score_bv"),
+        "var_A_baseclass": ("var_A", "var_A"), "var_G_baseclass": ("var_A", "var_A"),
+        "bulmer_baseclass": ("bulmer", "bulmer"), "bulmer_numpy_baseclass": ("bulmer", "bulmer"),
+        "var_G_ud_none": ("var_A", "var_A"), "var_G_raw": ("var_G", "var_G"), "score_dom_raw": ("score_dom", "score_dom"),
+        "var_G_numpy_dom": ("var_G", "var_G"), "score_numpy_dom": ("score_dom", "score_dom"),
+        "bulmer_numpy_dom": ("bulmer", "bulmer"), "var_a_numpy_baseclass": ("var_a", "var_a"),
+        "score_numpy_baseclass": ("score", "score"), "var_A_numpy_baseclass": ("var_A", "var_A"),
+    }
 
     def _views(self, case, obs):
-        perm = case["perm"]
+        perm = case.get("perm") or list(range(len(case["g"][0])))
         gp = _gperm(case["g"], perm)
-        Xp = [case["X"][i] for i in perm]
+        X = case.get("X") or [[1] for _ in case["g"][0]]
+        Xp = [X[i] for i in perm]
         out = []
         for name in sorted(obs["views"]):
             v = obs["views"][name]
             permuted = name in self._PERMUTED
             d = {"mode": self._VIEW_MODE[name], "g": gp if permuted else case["g"],
-                 "X": Xp if permuted else case["X"], "out": v["mat"], "name": name}
-            if name == "gebv_numpy":
+                 "X": Xp if permuted else X, "out": v["mat"], "name": name}
+            if name in self._EXACT:
+                d["exact"] = True
+            if name in self._NOLABELS:
                 d.update({"labelled": False, "taxa_out": None, "grp_out": None})
             else:
                 d.update({"labelled": name not in self._UNLABELLED,
@@ -716,6 +1281,22 @@ class C04(Prop):
                           "taxa_out": v["taxa"], "grp_out": v["grp"]})
             out.append(d)
         return out
+
+    def _stat_rounds(self, stats):
+        """every observed variant of every statistic goes to the Lean Spec: round r carries the r-th variant of
+        each definition (the op evaluates one value per definition name)"""
+        by_def = {}
+        for name in sorted(stats):
+            by_def.setdefault(self._STAT[name][0], []).append(name)
+        rounds = []
+        r = 0
+        while True:
+            d = {dn: names[r] for dn, names in by_def.items() if r < len(names)}
+            if not d:
+                break
+            rounds.append(d)
+            r += 1
+        return rounds
 
     @staticmethod
     def _nonfinite(obs, keys):
@@ -775,7 +1356,7 @@ class C04(Prop):
         va, vb = [], []
         for name in sorted(stg["views"]):
             v = stg["views"][name]
-            d = {"mode": self._RQ_MODE[name], "g": case["g"], "out": v["mat"], "name": name,
+            d = {"mode": self._RQ_MODE[name], "g": par["g"], "out": v["mat"], "name": name,
                  "X": X2 if name in self._RQ_MISC else case["X"]}
             if name in self._RQ_NOLABEL:
                 d.update({"labelled": False, "taxa_out": v.get("taxa"), "grp_out": v.get("grp")})
@@ -785,16 +1366,16 @@ class C04(Prop):
             (vb if name in self._RQ_MISC else va).append(d)
         sa = {k: v for k, v in stg["stats"].items() if k in self._RQ_STAT}
         sb = {self._RQ_STAT_MISC[k]: v for k, v in stg["stats"].items() if k in self._RQ_STAT_MISC}
-        al = {"ua": par["u_a"], "ploidy": case["ploidy"], "g": case["g"]}
+        al = {"ua": par["u_a"], "ploidy": case["ploidy"], "g": par["g"]}
         return [
-            {"op": "c04.lin", **common, "beta": par["beta"], "g": case["g"], "X": case["X"], "Y": case["Y"]},
-            {"op": "c04.lin", **common, "beta": par["beta"], "g": case["g"], "X": case["X"], "Y": case["Y"],
+            {"op": "c04.lin", **common, "beta": par["beta"], "g": par["g"], "X": case["X"], "Y": case["Y"]},
+            {"op": "c04.lin", **common, "beta": par["beta"], "g": par["g"], "X": case["X"], "Y": case["Y"],
              "um": par["u_misc"] if par["u_misc"] is not None else [],
              "Zm": case["Zm"] if case["Zm"] is not None else [[] for _ in case["X"]]},
             {"op": "c04.spec_values", **common, "beta": par["beta"], "views": va},
             {"op": "c04.spec_values", **common, "beta": beta2, "views": vb},
-            {"op": "c04.spec_stats", **common, "beta": par["beta"], "g": case["g"], "X": case["X"], "Y": case["Y"], "stats": sa},
-            {"op": "c04.spec_stats", **common, "beta": beta2, "g": case["g"], "X": X2, "Y": case["Y"], "stats": sb},
+            {"op": "c04.spec_stats", **common, "beta": par["beta"], "g": par["g"], "X": case["X"], "Y": case["Y"], "stats": sa},
+            {"op": "c04.spec_stats", **common, "beta": beta2, "g": par["g"], "X": X2, "Y": case["Y"], "stats": sb},
             {"op": "c04.alleles", **al},
             {"op": "c04.spec_alleles", **al, "obs": stg["alleles"]},
         ]
@@ -803,19 +1384,39 @@ class C04(Prop):
         k = case["kind"]
         if k in self._FINITE_KEYS and self._nonfinite(obs, self._FINITE_KEYS[k]):
             return []          # judged without the driver: a non-finite coefficient violates every clause
-        if k == "lin":
+        if k in ("lin", "big"):
             common = {"beta": case["beta"], "ua": case["ua"], "t": case["t"], "ploidy": case["ploidy"]}
             if case["ud"] is not None:
                 common["ud"] = case["ud"]
-            perm = case["perm"]
-            stats = dict(obs["stats"])
-            return [
-                {"op": "c04.lin", **common, "g": case["g"], "X": case["X"], "Y": case["Y"],
-                 "bv_mat": obs["bvm"]["mat"], "bv_loc": obs["bvm"]["loc"], "bv_scale": obs["bvm"]["scale"]},
-                {"op": "c04.lin", **common, "g": _gperm(case["g"], perm), "X": [case["X"][i] for i in perm]},
-                {"op": "c04.spec_values", **common, "views": self._views(case, obs)},
-                {"op": "c04.spec_stats", **common, "g": case["g"], "X": case["X"], "Y": case["Y"], "stats": stats},
-            ]
+            n = len(case["g"][0])
+            perm = case.get("perm") or list(range(n))
+            X = case.get("X") or [[1] for _ in range(n)]
+            first = {"op": "c04.lin", **common, "g": case["g"], "X": X}
+            if "Y" in case:
+                first["Y"] = case["Y"]
+            if "bvm" in obs:
+                first.update({"bv_mat": obs["bvm"]["mat"], "bv_loc": obs["bvm"]["loc"], "bv_scale": obs["bvm"]["scale"]})
+            reqs = [first]
+            if any(name in self._PERMUTED for name in obs["views"]):
+                reqs.append({"op": "c04.lin", **common, "g": _gperm(case["g"], perm), "X": [X[i] for i in perm]})
+            else:
+                reqs.append({"op": "c04.lin", **common, "g": [[[0] * len(case["ua"])]], "X": [[1]]})
+            reqs.append({"op": "c04.spec_values", **common, "views": self._views(case, obs)})
+            for f in obs.get("factory") or []:
+                fc = {"beta": f["beta"], "ua": f["ua"], "t": case["t"], "ploidy": case["ploidy"]}
+                if f["ud"] is not None:
+                    fc["ud"] = f["ud"]
+                reqs.append({"op": "c04.spec_values", **fc, "views": [
+                    {"mode": f["mode"], "g": case["g"], "X": X, "out": f["view"]["mat"], "name": f["name"], "labelled": True,
+                     "taxa_in": case["taxa"], "grp_in": case["grp"], "taxa_out": f["view"]["taxa"],
+                     "grp_out": f["view"]["grp"]}]})
+            for rd in self._stat_rounds(obs["stats"]):
+                st = {dn: obs["stats"][vn] for dn, vn in rd.items()}
+                req = {"op": "c04.spec_stats", **common, "g": case["g"], "X": X, "stats": st}
+                if "Y" in case:
+                    req["Y"] = case["Y"]
+                reqs.append(req)
+            return reqs
         if k == "refit":
             bad = ("nan", "inf", "-inf")
             if any(x in json.dumps(obs) for x in ('"nan"', '"inf"', '"-inf"')):
@@ -828,20 +1429,26 @@ class C04(Prop):
             return reqs
         if k == "alleles":
             base = {"ua": case["ua"], "ploidy": case["ploidy"], "g": case["g"]}
-            return [{"op": "c04.alleles", **base},
+            reqs = [{"op": "c04.alleles", **base},
                     {"op": "c04.spec_alleles", **base, "obs": obs["phased"]},
                     {"op": "c04.spec_alleles", **base, "obs": obs["unphased"]}]
+            if "dtyped" in obs:
+                reqs.append({"op": "c04.spec_alleles", **base, "obs": obs["dtyped"]})
+            return reqs
         if k == "gs":
             base = {"A": case["A"], "b": case["b"]}
             return [{"op": "c04.gs", **base, "atol": case["atol"], "maxiter": case["maxiter"]},
                     {"op": "c04.spec_gs", **base, "x": obs["x"]}]
         if k == "ml0":
             p = len(case["Z"][0])
+            atol = case.get("gsatol", canon.enc(Fraction(ATOL)))
+            # the normal-equation clause is only meaningful when the sweep limit is the default one
             return [{"op": "c04.ml0", "y": case["y"], "Z": case["Z"], "p": p, "ridge": obs["ridge"],
-                     "atol": canon.enc(Fraction(ATOL)), "maxiter": case["maxiter"]},
+                     "atol": atol, "maxiter": case["maxiter"]},
                     {"op": "c04.spec_fit", "Y": [[v] for v in case["y"]], "Z": case["Z"], "p": p, "t": 1,
-                     "ridges": [obs["ridge"]], "atol": canon.enc(Fraction(ATOL)), "reltol": canon.enc(RELTOL),
-                     "beta": [obs["betahat"]], "u_a": [[u] for u in obs["uhat"]], "check_normal_eq": False}]
+                     "ridges": [obs["ridge"]], "atol": atol, "reltol": canon.enc(RELTOL),
+                     "beta": [obs["betahat"]], "u_a": [[u] for u in obs["uhat"]],
+                     "check_normal_eq": case["maxiter"] >= 1000}]
         if k == "fit":
             p = len(case["Z"][0])
             t = len(case["Y"][0])
@@ -872,9 +1479,19 @@ class C04(Prop):
             return {"corr": False, "spec": False, "nontrivial": True,
                     "detail": f"{k}: non-finite value returned by the implementation: {str(obs)[:300]}"}
         A = [a["ok"] for a in answers]
-        if k == "lin":
-            base, permd, sv, ss = A
+        if k in ("lin", "big"):
+            base, permd, sv = A[0], A[1], A[2]
+            nfac = len(obs.get("factory") or [])
+            fac_ans = A[3:3 + nfac]
+            ss_rounds = A[3 + nfac:]
             bad = []
+            fac_bad = []
+            for f, ans in zip(obs.get("factory") or [], fac_ans):
+                if not ans["ok"]:
+                    fac_bad.append(ans["detail"])
+                if not (self._cl(f["beta"], case["beta"]) and self._cl(f["ua"], case["ua"])
+                        and self._cl(f["view"]["mat"], base[f["mode"]])):
+                    bad.append(f["name"])
             V, S = obs["views"], obs["stats"]
             model_for = {"gebv": "gebv", "gegv": "gegv", "gebv_numpy": "gebv_numpy", "predict": "predict",
                          "predict_dom": "predict_dom"}
@@ -887,36 +1504,27 @@ class C04(Prop):
                     bad.append(name)
                 if v.get("trait", obs["trait"]) != obs["trait"]:
                     bad.append(name + ".trait")
-            stat_key = {"var_A": "var_A", "var_G_add": "var_A", "var_A_raw": "var_A", "var_a": "var_a",
-                        "var_a_raw": "var_a", "var_a_baseclass": "var_a", "afreq": "afreq", "bulmer": "bulmer",
-                        "bulmer_raw": "bulmer", "score": "score", "score_raw": "score", "var_G": "var_G",
-                        "var_G_unphased": "var_G", "var_A_dom": "var_A", "score_dom": "score_dom",
-                        "score_bvm": "score_bv", "score_dom_bvm": "score_dom", "var_a_dom": "var_a",
-                        "bulmer_dom": "bulmer"}
             for name, val in S.items():
-                want = base[stat_key[name]]
+                want = base[self._STAT[name][1]]
                 want = ["nan" if w is None else w for w in want]
                 if not self._cl(val, want):
                     bad.append(name)
+            if obs.get("bvm_holds_Y") is False:
+                bad.append("harness: breeding value matrix does not hold the responses")
             corr = not bad
-            # Spec: every statistic through every entry point equals the definition; duplicates of one
-            # statistic (raw / base-class / unphased variants) are judged against the same definition
-            dup_ok = True
-            dup_bad = []
-            for name, ref in (("var_A_raw", "var_A"), ("var_a_raw", "var_a"), ("var_a_baseclass", "var_a"),
-                              ("bulmer_raw", "bulmer"), ("score_raw", "score"), ("var_G_unphased", "var_G"),
-                              ("score_bvm", "score"), ("score_dom_bvm", "score_dom"), ("var_a_dom", "var_a"),
-                              ("bulmer_dom", "bulmer")):
-                if name in S and not self._cl(S[name], S[ref]):
-                    dup_ok = False
-                    dup_bad.append(name)
-            spec = bool(sv["ok"]) and bool(ss["ok"]) and dup_ok and obs["inputs_untouched"]
+            # Spec: every statistic through every entry point equals the definition (each variant is sent to the
+            # Lean oracle: `_stat_rounds`)
+            stat_bad = []
+            for rd, ans in zip(self._stat_rounds(S), ss_rounds):
+                if not ans["ok"]:
+                    stat_bad += [rd[dn] for dn in ans["detail"].split() if dn in rd]
+            spec = bool(sv["ok"]) and not stat_bad and not fac_bad and obs["inputs_untouched"]
             g = case["g"]
             dos = [tuple(sum(ph[i][j] for ph in g) for j in range(len(g[0][0]))) for i in range(len(g[0]))]
             nontriv = len(set(dos)) >= 2 and any(Fraction(v) != 0 for r in case["ua"] for v in r)
             return {"corr": corr, "spec": spec, "nontrivial": nontriv,
-                    "detail": f"lin corr_bad={bad} spec_values=[{sv['detail']}] spec_stats=[{ss['detail']}] "
-                              f"dup_bad={dup_bad} untouched={obs['inputs_untouched']}"}
+                    "detail": f"{k} opts={case.get('opts')} corr_bad={bad[:10]} spec_values=[{sv['detail']}] "
+                              f"spec_stats_bad={stat_bad} factory_bad={fac_bad} untouched={obs['inputs_untouched']}"}
         if k == "refit":
             if not answers:
                 return {"corr": False, "spec": False, "nontrivial": True, "detail": "refit: non-finite value"}
@@ -986,15 +1594,18 @@ class C04(Prop):
                         sbad.append(tag + "." + a + "!=" + b)
             g = case["g"]
             dos = [tuple(sum(ph[i][j] for ph in g) for j in range(len(g[0][0]))) for i in range(len(g[0]))]
-            changed = any(st["set"] in ("u_a", "beta", "u_d", "u_misc") and st["value"] !=
-                          {"u_a": case["ua"], "beta": case["beta"], "u_d": case["ud"], "u_misc": case["um"]}[st["set"]]
+            changed = any((st["set"] in ("u_a", "beta", "u_d", "u_misc") and st["value"] !=
+                           {"u_a": case["ua"], "beta": case["beta"], "u_d": case["ud"], "u_misc": case["um"]}[st["set"]])
+                          or st["set"] in ("u_a_inplace", "beta_inplace", "u_d_inplace", "geno_flip", "copy_mutate",
+                                           "out_mutate")
                           for st in case["steps"])
             return {"corr": not bad, "spec": not sbad, "nontrivial": len(set(dos)) >= 2 and changed,
                     "detail": f"requery steps={[st['set'] for st in case['steps']]} corr_bad={bad[:12]} spec_bad={sbad[:8]}"}
         if k == "alleles":
-            mod, s1, s2 = A
+            mod, s1, s2 = A[0], A[1], A[2]
+            s3 = A[3] if len(A) > 3 else {"ok": True, "detail": ""}
             bad = []
-            for rep in ("phased", "unphased"):
+            for rep in ("phased", "unphased") + (("dtyped",) if "dtyped" in obs else ()):
                 for fn in self._ALLELE_FNS:
                     got, want = obs[rep][fn], mod[fn]
                     if fn in ("fafreq", "dafreq"):
@@ -1007,8 +1618,9 @@ class C04(Prop):
             tot = case["ploidy"] * n
             cnt = [sum(ph[i][j] for ph in g for i in range(n)) for j in range(len(g[0][0]))]
             nontriv = any(0 < c < tot for c in cnt) and any(Fraction(v) != 0 for r in case["ua"] for v in r)
-            return {"corr": not bad, "spec": bool(s1["ok"]) and bool(s2["ok"]), "nontrivial": nontriv,
-                    "detail": f"alleles corr_bad={bad} spec_phased=[{s1['detail']}] spec_unphased=[{s2['detail']}]"}
+            return {"corr": not bad, "spec": bool(s1["ok"]) and bool(s2["ok"]) and bool(s3["ok"]), "nontrivial": nontriv,
+                    "detail": f"alleles opts={case.get('opts')} corr_bad={bad} spec_phased=[{s1['detail']}] "
+                              f"spec_unphased=[{s2['detail']}] spec_dtyped=[{s3['detail']}]"}
         if k == "gs":
             mod, s = A
             corr = self._cl(obs["x"], mod["x"])
@@ -1017,20 +1629,29 @@ class C04(Prop):
         if k == "ml0":
             mod, s = A
             corr = self._cl(obs["betahat"], [mod["betahat"]]) and self._cl(obs["uhat"], mod["uhat"])
-            return {"corr": corr, "spec": bool(s["ok"]), "nontrivial": len(case["Z"][0]) >= 2,
-                    "detail": f"ml0 ridge={obs['ridge']} impl_u={obs['uhat']} model_u={mod['uhat']} spec=[{s['detail']}]"}
+            return {"corr": corr, "spec": bool(s["ok"]), "nontrivial": len(case["Z"][0]) >= 2, "clauses": s.get("clauses"),
+                    "detail": f"ml0 gsatol={case.get('gsatol')} ridge={obs['ridge']} impl_u={obs['uhat']} model_u={mod['uhat']} spec=[{s['detail']}]"}
         if k == "fit":
             mod, s = A
             corr = (self._cl(obs["beta"], mod["beta"]) and canon.close_enc(obs["u_a"], mod["u_a"], rel=0, abs_=0)
                     and obs["class"] == "rrBLUPModel0")
-            return {"corr": corr, "spec": bool(s["ok"]), "nontrivial": sum(mod["ispoly"]) >= 2,
+            untouched = obs.get("training_data_untouched", True)
+            return {"corr": corr, "spec": bool(s["ok"]) and untouched, "nontrivial": sum(mod["ispoly"]) >= 2,
                     "clauses": s.get("clauses"),
-                    "detail": f"fit[{case.get('via')}] ridges={[float(Fraction(r)) for r in obs['ridges']]} spec=[{s['detail']}]"}
+                    "detail": f"fit[{case.get('via')}] opts={(case.get('opts') or {}).get('layout')},{((case.get('opts') or {}).get('bv') or {}).get('how')} untouched={untouched} ridges={[float(Fraction(r)) for r in obs['ridges']]} spec=[{s['detail']}]"}
         raise ValueError(k)
 
     # ------------------------------------------------------------------ findings / shrinking
     def signature(self, case, obs, verdict):
         sig = {"kind": case["kind"]}
+        if case["kind"] == "ml0" and isinstance(obs, dict) and "uhat" in obs:
+            cl = verdict.get("clauses") or {}
+            sig["failed"] = ",".join(sorted(k for k, v in cl.items() if v is False and k != "well_determined"))
+            sig["site"] = "gauss_seidel"
+            try:
+                sig["cond"] = "atol_zero" if Fraction(canon.dec(case.get("gsatol", 1))) == 0 else "atol_positive"
+            except Exception:
+                sig["cond"] = "unknown"
         if case["kind"] == "fit" and isinstance(obs, dict) and "ridges" in obs:
             cl = verdict.get("clauses") or {}
             failed = sorted(k for k, v in cl.items() if v is False and k != "well_determined")
@@ -1055,10 +1676,34 @@ class C04(Prop):
         return sig
 
     def shrink(self, case):
+        for c in self._shrink0(case):
+            opts = c.get("opts") or {}
+            bv = opts.get("bv")
+            if c["kind"] == "fit" and bv:
+                Y = c["Y"]
+                if len(Y[0]) != len(bv["loc"]):
+                    c = dict(c, opts={kk: vv for kk, vv in opts.items() if kk != "bv"})
+                else:
+                    mat = [[(Fraction(canon.dec(Y[i][kk])) - canon.dec(bv["loc"][kk])) / canon.dec(bv["scale"][kk])
+                            for kk in range(len(Y[0]))] for i in range(len(Y))]
+                    c = dict(c, opts=dict(opts, bv=dict(bv, mat=canon.enc(mat))))
+            yield c
+        if case["kind"] in ("fit", "alleles") and case.get("opts"):
+            c = dict(case)
+            c.pop("opts")
+            yield c
+
+    def _shrink0(self, case):
         k = case["kind"]
         if k == "lin":
             g = case["g"]
             n, p, t = len(g[0]), len(case["ua"]), case["t"]
+            opts = case.get("opts") or {}
+            bv = opts.get("bv")
+            for key in list(opts):               # first try to get rid of the options
+                c = dict(case)
+                c["opts"] = {kk: vv for kk, vv in opts.items() if kk != key}
+                yield c
             for i in range(n):
                 if n > 1:
                     keep = [x for x in range(n) if x != i]
@@ -1069,6 +1714,8 @@ class C04(Prop):
                     c["X"] = [case["X"][x] for x in keep]
                     c["Y"] = [case["Y"][x] for x in keep]
                     c["perm"] = list(range(n - 1))
+                    if bv:
+                        c["opts"] = dict(opts, bv=dict(bv, mat=[bv["mat"][x] for x in keep]))
                     yield c
             for j in range(p):
                 if p > 1:
@@ -1086,11 +1733,50 @@ class C04(Prop):
                     c["t"] = t - 1
                     for key in ("beta", "ua", "ud", "Y"):
                         c[key] = None if case[key] is None else [[r[x] for x in keep] for r in case[key]]
+                    if bv:
+                        c["opts"] = dict(opts, bv=dict(bv, mat=[[r[x] for x in keep] for r in bv["mat"]],
+                                                       loc=[bv["loc"][x] for x in keep],
+                                                       scale=[bv["scale"][x] for x in keep]))
                     yield c
             if case["ud"] is not None:
                 c = dict(case)
                 c["ud"] = None
                 yield c
+        elif k == "big":
+            g = case["g"]
+            n, p, t = len(g[0]), len(case["ua"]), case["t"]
+            if case["ud"] is not None:
+                c = dict(case)
+                c["ud"] = None
+                yield c
+            def cols(keep):
+                c = dict(case)
+                c["g"] = _gcols(g, keep)
+                c["ua"] = [case["ua"][x] for x in keep]
+                c["ud"] = None if case["ud"] is None else [case["ud"][x] for x in keep]
+                return c
+            if p > 8:
+                for a, b in ((0, p // 2), (p // 2, p), (0, p // 10), (p - p // 10, p), (0, 1), (p - 1, p)):
+                    yield cols([x for x in range(p) if not (a <= x < b)])
+            def rows(keep):
+                c = dict(case)
+                c["g"] = _gperm(g, keep)
+                c["taxa"] = _take(case["taxa"], keep)
+                return c
+            if n > 8:
+                for a, b in ((0, n // 2), (n // 2, n), (0, n // 10), (n - n // 10, n), (0, 1), (n - 1, n)):
+                    yield rows([x for x in range(n) if not (a <= x < b)])
+            elif n > 1:
+                for i in range(n):
+                    yield rows([x for x in range(n) if x != i])
+            if t > 1:
+                for kk in range(t):
+                    keep = [x for x in range(t) if x != kk]
+                    c = dict(case)
+                    c["t"] = t - 1
+                    for key in ("beta", "ua", "ud"):
+                        c[key] = None if case[key] is None else [[r[x] for x in keep] for r in case[key]]
+                    yield c
         elif k == "refit":
             def polyok(Zs):
                 return len(Zs) >= 2 and any(any(r[j] != Zs[0][j] for r in Zs) for j in range(len(Zs[0])))
@@ -1113,6 +1799,7 @@ class C04(Prop):
         elif k == "requery":
             g = case["g"]
             n, p, t = len(g[0]), len(case["ua"]), case["t"]
+            dummy = [{"set": "trait", "value": ["x%d" % k for k in range(t)]}]
             for si in range(len(case["steps"])):
                 if len(case["steps"]) > 1:
                     c = dict(case)
@@ -1121,13 +1808,30 @@ class C04(Prop):
             if case["ud"] is not None:
                 c = dict(case)
                 c["ud"] = None
-                c["steps"] = [st for st in case["steps"] if st["set"] != "u_d"] or [{"set": "trait", "value": ["x%d" % k for k in range(t)]}]
+                c["steps"] = [st for st in case["steps"] if st["set"] not in ("u_d", "u_d_inplace")] or dummy
                 yield c
             if case["um"] is not None:
                 c = dict(case)
                 c["um"] = c["Zm"] = None
-                c["steps"] = [st for st in case["steps"] if st["set"] != "u_misc"] or [{"set": "trait", "value": ["x%d" % k for k in range(t)]}]
+                c["steps"] = [st for st in case["steps"] if st["set"] != "u_misc"] or dummy
                 yield c
+
+            def remap(steps, axis, dropped):
+                """steps after taxon (`axis` = "i") or marker (`axis` = "j") number `dropped` was removed"""
+                out = []
+                for st in steps:
+                    w = st["set"]
+                    uses = (w == "geno_flip") or (axis == "j" and w in ("u_a_inplace", "u_d_inplace"))
+                    if uses:
+                        if st[axis] == dropped:
+                            continue
+                        if st[axis] > dropped:
+                            st = dict(st)
+                            st[axis] -= 1
+                    elif axis == "j" and w in ("u_a", "u_d"):
+                        st = dict(st, value=[r for x, r in enumerate(st["value"]) if x != dropped])
+                    out.append(st)
+                return out or dummy
             for i in range(n):
                 if n > 1:
                     keep = [x for x in range(n) if x != i]
@@ -1135,6 +1839,7 @@ class C04(Prop):
                     c["g"] = _gperm(g, keep)
                     for key in ("taxa", "grp", "X", "Y", "Zm"):
                         c[key] = _take(case[key], keep)
+                    c["steps"] = remap(case["steps"], "i", i)
                     yield c
             for j in range(p):
                 if p > 1:
@@ -1143,8 +1848,7 @@ class C04(Prop):
                     c["g"] = _gcols(g, keep)
                     c["ua"] = _take(case["ua"], keep)
                     c["ud"] = _take(case["ud"], keep)
-                    c["steps"] = [dict(st, value=_take(st["value"], keep)) if st["set"] in ("u_a", "u_d") else st
-                                  for st in case["steps"]]
+                    c["steps"] = remap(case["steps"], "j", j)
                     yield c
         elif k == "alleles":
             g = case["g"]
@@ -1464,6 +2168,153 @@ class C04(Prop):
         def u_misc_last(self):
             return numpy.concatenate([self.u_a, self.u_misc], axis=0)
 
+        # ---------------- round 4: one mutant per new input class
+        def bulmer_isclose(self, Z, p, ploidy=2, **kw):
+            sA = self.var_A_numpy(Z)
+            sa = self.var_a_numpy(p, ploidy)
+            mask = numpy.isclose(sa, 0.0)
+            den = sa.copy()
+            den[mask] = 1.0
+            out = sA / den
+            out[mask] = numpy.nan
+            return out
+
+        def facount_neutral_isclose(self, gmat, dtype=None, **kw):
+            dtype = numpy.dtype(int if dtype is None else dtype)
+            ac = gmat.acount(dtype=dtype)[:, None]
+            mx = dtype.type(gmat.ploidy * gmat.ntaxa)
+            out = numpy.where(self.u_a > 0.0, ac, mx - ac)
+            out[numpy.isclose(self.u_a, 0.0)] = 0
+            return out
+
+        def dacount_mask_signbit(self, gmat, dtype=None, **kw):
+            dtype = numpy.dtype(int if dtype is None else dtype)
+            ac = gmat.acount(dtype=dtype)[:, None]
+            mx = dtype.type(gmat.ploidy * gmat.ntaxa)
+            out = numpy.where(numpy.signbit(self.u_a), ac, mx - ac)
+            out[(self.u_a == 0.0) & ~numpy.signbit(self.u_a)] = 0
+            return out
+
+        def facount_int8_accumulator(self, gmat, dtype=None, **kw):
+            dtype = numpy.dtype(int if dtype is None else dtype)
+            ac = gmat.mat.reshape(-1, gmat.mat.shape[-2], gmat.mat.shape[-1]).sum((0, 1), dtype="int8").astype(dtype)[:, None]
+            mx = dtype.type(gmat.ploidy * gmat.ntaxa)
+            out = numpy.where(self.u_a > 0.0, ac, mx - ac)
+            out[self.u_a == 0.0] = 0
+            return out
+
+        def score_centre_from_bvm(self, ptobj, cvobj, gtobj, **kw):
+            if isinstance(ptobj, m.BVM):
+                Y = ptobj.unscale()
+                Z = gtobj.mat_asformat("{0,1,2}") if isinstance(gtobj, m.gm.GenotypeMatrix) else gtobj
+                Yh = (cvobj @ self.beta) + (Z @ self.u)
+                return 1.0 - ((Y - Yh) ** 2).sum(0) / ((Y - ptobj.location) ** 2).sum(0)
+            return real_score(self, ptobj, cvobj, gtobj, **kw)
+
+        real_estimate = m.TBV.__dict__["estimate"]
+
+        def tbv_labels_from_ptobj(self, ptobj, gtobj, miscout=None, **kw):
+            out = real_estimate(self, ptobj, gtobj, miscout, **kw)
+            if isinstance(ptobj, m.BVM) and ptobj.taxa is not None and ptobj.ntaxa == out.ntaxa:
+                out.taxa = ptobj.taxa
+                out.taxa_grp = ptobj.taxa_grp
+            return out
+
+        def gebv_numpy_marker_blocks(self, Z, **kw):
+            bs = 1024
+            if numpy.issubdtype(Z.dtype, numpy.integer) and Z.shape[1] > bs:
+                out = numpy.zeros((Z.shape[0], self.u_a.shape[1]))
+                for i in range(Z.shape[1] // bs):
+                    out += Z[:, i * bs:(i + 1) * bs] @ self.u_a[i * bs:(i + 1) * bs, :]
+                return out
+            return Z @ self.u_a
+
+        def gebv_numpy_taxa_blocks(self, Z, **kw):
+            bs = 1024
+            out = numpy.zeros((Z.shape[0], self.u_a.shape[1]))
+            for i in range(max(1, Z.shape[0] // bs)):
+                out[i * bs:(i + 1) * bs, :] = Z[i * bs:(i + 1) * bs, :] @ self.u_a
+            return out
+
+        def gebv_numpy_memory_order(self, Z, **kw):
+            Zc = numpy.ravel(Z, order="K").reshape(Z.shape)
+            return Zc @ self.u_a
+
+        def var_one_pass(self, Z, **kw):
+            gv = self.gebv_numpy(Z)
+            return (gv ** 2).mean(0) - gv.mean(0) ** 2
+
+        def u_cached_by_identity(self):
+            key = (id(self._u_misc), id(self._u_a))
+            c = self.__dict__.get("_c04_ucache")
+            if c is None or c[0] != key:
+                c = (key, numpy.concatenate([self.u_misc, self.u_a], axis=0))
+                self.__dict__["_c04_ucache"] = c
+            return c[1]
+
+        memo = {}
+
+        def var_A_memo(self, Z, **kw):
+            key = ("vA", id(self), Z.shape, numpy.ascontiguousarray(Z).tobytes(), self.u_a.tobytes())
+            if key not in memo:
+                memo[key] = self.gebv_numpy(Z).var(0)
+            return memo[key]
+
+        real_var_a = m.ADD.__dict__["var_a"]
+
+        def var_a_memo_by_object(self, gtobj, ploidy=None, **kw):
+            key = ("va", id(self), id(gtobj), self.u_a.tobytes())
+            if key not in memo:
+                memo[key] = real_var_a(self, gtobj, ploidy, **kw)
+            return memo[key].copy()
+
+        def deepcopy_shares_arrays(self, memo_=None):
+            return self.__class__(beta=self.beta, u_misc=self.u_misc, u_a=self.u_a, trait=self.trait)
+
+        def ml0_intercept_float32(*a, **k):
+            out = real_ml0(*a, **k)
+            out["betahat"] = numpy.array([float(numpy.asarray(a[0], dtype=float).mean(dtype="float32"))])
+            return out
+
+        def ztz_int8(Z, ridge):
+            Zi = Z.astype("int8")
+            A = (Zi.T @ Zi).astype(float)
+            A[numpy.diag_indices_from(A)] += ridge
+            return A
+
+        real_gegv_numpy = m.DOM.__dict__["gegv_numpy"]
+
+        def gegv_numpy_additive_fast_path(self, Z, **kw):
+            if self.u_d.sum() == 0.0:
+                return Z[:, :self.nexplan_u_a] @ self.u_a
+            return real_gegv_numpy(self, Z, **kw)
+
+        def var_a_ploidy_not_forwarded(self, gtobj, ploidy=None, **kw):
+            if isinstance(gtobj, m.gm.GenotypeMatrix):
+                pf = gtobj.afreq()
+            else:
+                pf = gtobj.sum(0) / ((2 if ploidy is None else ploidy) * gtobj.shape[0])
+            return self.var_a_numpy(pf, **kw)
+
+        def fit_collapses_identical_columns(cls, Y, X, Z, *a, **k):
+            Zf = numpy.asarray(Z, dtype=float)
+            Yf = numpy.asarray(Y, dtype=float)
+            poly = ~numpy.all(Zf == Zf[0, :], axis=0)
+            Zu, blk = numpy.unique(Zf[:, poly], axis=1, return_inverse=True)
+            blk = blk.ravel()
+            models = [m.rr.rrBLUP_ML0(Yf[:, i], Zu) for i in range(Yf.shape[1])]
+            beta = numpy.stack([mm["betahat"] for mm in models], axis=1)
+            u_a = numpy.zeros((Zf.shape[1], Yf.shape[1]), dtype=float)
+            u_a[poly, :] = numpy.stack([mm["uhat"] for mm in models], axis=1)[blk, :]
+            return cls(beta=beta, u_misc=None, u_a=u_a)
+
+        @contextlib.contextmanager
+        def clean(ctx):
+            memo.clear()
+            with ctx:
+                yield
+            memo.clear()
+
         both = lambda name, fn: (lambda: _both(name, fn))
 
         @contextlib.contextmanager
@@ -1504,6 +2355,27 @@ class C04(Prop):
             ("refit_polymorphism_mask_cached", lambda: fresh(patch(m.RR, "fit_numpy", classmethod(fit_mask_cached)))),
             ("refit_effects_in_shared_buffer", lambda: fresh(patch(m.RR, "fit_numpy", classmethod(fit_shared_buffer)))),
             ("refit_ml0_memoised_by_shape", lambda: fresh(patch(m.rr, "rrBLUP_ML0", ml0_memo))),
+            # round 4: magnitudes / sizes / argument forms / entry points / histories
+            ("bulmer_zero_test_isclose", lambda: patch(m.ADD, "bulmer_numpy", bulmer_isclose)),
+            ("facount_neutral_test_isclose", lambda: patch(m.ADD, "facount", facount_neutral_isclose)),
+            ("facount_int8_accumulator", lambda: patch(m.ADD, "facount", facount_int8_accumulator)),
+            ("dacount_negative_zero_counted_deleterious", lambda: patch(m.ADD, "dacount", dacount_mask_signbit)),
+            ("score_sst_about_bvmat_location", lambda: patch(m.ADD, "score", score_centre_from_bvm)),
+            ("tbv_labels_taken_from_ptobj", lambda: patch(m.TBV, "estimate", tbv_labels_from_ptobj)),
+            ("gebv_numpy_marker_blocks_tail_dropped", lambda: patch(m.ADD, "gebv_numpy", gebv_numpy_marker_blocks)),
+            ("gebv_numpy_taxa_blocks_tail_dropped", lambda: patch(m.ADD, "gebv_numpy", gebv_numpy_taxa_blocks)),
+            ("gebv_numpy_reads_memory_order", lambda: patch(m.ADD, "gebv_numpy", gebv_numpy_memory_order)),
+            ("var_A_one_pass_formula", lambda: patch(m.ADD, "var_A_numpy", var_one_pass)),
+            ("u_cached_by_array_identity", lambda: patch(m.ADD, "u", property(u_cached_by_identity))),
+            ("var_A_memo_returned_without_copy", lambda: clean(patch(m.ADD, "var_A_numpy", var_A_memo))),
+            ("var_a_memo_keyed_by_genotype_object", lambda: clean(patch(m.ADD, "var_a", var_a_memo_by_object))),
+            ("deepcopy_shares_coefficient_arrays", lambda: patch(m.ADD, "__deepcopy__", deepcopy_shares_arrays)),
+            ("rrblup_class_gebv_drops_location", lambda: patch(m.RR, "gebv", gebv_no_location)),
+            ("rrblup_intercept_mean_in_float32", lambda: patch(m.rr, "rrBLUP_ML0", ml0_intercept_float32)),
+            ("rrblup_ztz_in_int8", lambda: patch(m.rr, "rrBLUP_ML0_calc_ZtZplI", ztz_int8)),
+            ("gegv_numpy_skips_dominance_when_effects_cancel", lambda: patch(m.DOM, "gegv_numpy", gegv_numpy_additive_fast_path)),
+            ("var_a_ploidy_not_forwarded", lambda: patch(m.ADD, "var_a", var_a_ploidy_not_forwarded)),
+            ("rrblup_identical_columns_collapsed", lambda: patch(m.RR, "fit_numpy", classmethod(fit_collapses_identical_columns))),
             # mechanism 5: rrBLUP
             ("gs_wrong_sign_lower_part", lambda: patch(m.rr, "gauss_seidel", gs_jacobi_sign)),
             ("gs_stops_after_two_sweeps", lambda: patch(m.rr, "gauss_seidel", gs_two_sweeps)),
